@@ -56,7 +56,7 @@ var recipes = []recipe{
 	}, 1},
 	{"stake-rewards", func(r *hx.Rng, s uint64, o hx.Counter, a bool) []Case { return runRewards(drawRewards(r, s, a), o) }, 3},
 	{"slash-proposal", func(r *hx.Rng, s uint64, o hx.Counter, a bool) []Case {
-		return runSlash(SlashParams{Seed: s, Delegate: pickS(r, "", "1000000ukex", "5000ubtc", "1000000ukex,5000ubtc"), Vote: r.Intn(5), Slash: pickS(r, "0", "0.01", "0.5", "1")}, o)
+		return runSlash(SlashParams{Seed: s, Delegate: pickS(r, "", "1000000ukex", "5000ubtc", "1000000ukex,5000ubtc"), Vote: r.Intn(5), Slash: pickS(r, "0", "0.01", "0.5", "1"), After: r.Chance(50), Compound: r.Chance(50)}, o)
 	}, 2},
 	{"recovery-rotation", func(r *hx.Rng, s uint64, o hx.Counter, a bool) []Case {
 		return runRotation(RotationParams{Seed: s, Rotate: a}, o)
@@ -69,6 +69,9 @@ var recipes = []recipe{
 		return runBasket(BasketParams{Seed: s, LimitsPeriod: pickU(r, 0, 1, 86400, ^uint64(0))}, o)
 	}, 1},
 	{"module-address-send", func(r *hx.Rng, s uint64, o hx.Counter, a bool) []Case { return runModuleSend(s, o) }, 1},
+	{"proposer-deactivated", func(r *hx.Rng, s uint64, o hx.Counter, a bool) []Case {
+		return runPauseProposer(PauseParams{Seed: s, Interval: pickU(r, 1, 1, 3, 17280), How: pickS(r, "pause", "evidence", "none"), Compound: r.Chance(70)}, o)
+	}, 2},
 	{"random", recipeRandom, 6},
 }
 
